@@ -494,7 +494,7 @@ func init() {
 		Assume: []string{
 			"vhC41SocketDeadlineFirst: one DialTimeout / DialDualStackTimeout (1 ms or 1 s, with and without a Concurrency limit) to a hanging endpoint where the stub reports the expiry in each of the three ways the net package can: through ctx.Done(), as the poller's os.ErrDeadlineExceeded inside a *net.OpError, or as net's timeout error that matches context.DeadlineExceeded — the latter two returned 1 µs of virtual time before the context's own timer fires (net arms the socket deadline from, and compares the clock with, the context's deadline, so it can report the expiry while ctx.Err() is still nil; seen natively in 11022 of 19200 dials to a listener with a full accept queue before the fix in /repo): the outcome must be ErrDialTimeout with the upstream address in all three",
 			"the real TCPDialer (slot channel, timers, context deadline, DNS cache in a modelled sync.Map) on the engine's cooperative scheduler with virtual time; (*net.Dialer).DialContext is replaced under the engine by a harness stub (//verif:stub) that counts dials in progress, yields, and then connects, refuses, or hangs until the context's deadline, as chosen per address; the Resolver is a harness fake",
-			"`dials` concurrent DialTimeout(1 s) calls with Concurrency ∈ {1,2} and DisableDNSResolution; one dial of a host resolving to 2..3 addresses with each endpoint connecting / refusing / hanging; switch points are blocking operations and the stub's yield; inputs are choices only (no symbolic data), so the deciding step is exhaustive exploration of the choice and schedule tree on the symbolic executor",
+			"`dials` concurrent DialTimeout(1 s) calls with Concurrency ∈ {1,2} and DisableDNSResolution; one dial of a host resolving to 2..3 addresses with each endpoint connecting / refusing / hanging (the expiry reported in any of the three ways of vhC41SocketDeadlineFirst, after which no further address may be tried); switch points are blocking operations and the stub's yield; inputs are choices only (no symbolic data), so the deciding step is exhaustive exploration of the choice and schedule tree on the symbolic executor",
 			"sampled paths are not re-run natively (natively the real net.Dialer would dial the network); the operating system's adherence to the deadline, the DNS cache cleaner and the default resolver are outside this check",
 		},
 	})
